@@ -53,7 +53,7 @@ def reset_seams():
 # --------------------------------------------------------------------------
 
 
-def run_batch(sim_name, prop, tier, seed, stratum, indices, hash_seed="0"):
+def run_batch(sim_name, prop, tier, seed, stratum, indices, hash_seed="0", focus=None):
     """Executed inside a worker.  Returns a JSON-able dict."""
     import warnings
     warnings.simplefilter("ignore")
@@ -93,9 +93,13 @@ def run_batch(sim_name, prop, tier, seed, stratum, indices, hash_seed="0"):
             else:
                 census[f.key_str()] += 1
                 census_w.setdefault(f.key_str(), f.detail)
-                if len(unknown) < 5:
+                if focus is not None and idx != focus:
+                    continue
+                if len(unknown) < 5 or focus is not None:
                     unknown.append({"index": idx, "finding": f.to_json(), "cfg": cfg,
-                                    "ops": res.ops, "op_index": op_i})
+                                    "ops": res.ops, "op_index": op_i,
+                                    "batch_first": indices[0], "stratum": stratum,
+                                    "hash_seed": hash_seed})
         if len(samples) < 2 and len(res.ops) >= 2:
             samples.append({"stratum": stratum, "run_index": idx, "config": cfg,
                             "ops": res.ops[:12], "events": res.events[:12]})
@@ -132,18 +136,10 @@ def check(prop, tier, seed):
     else:
         jobs = []
         for stratum, n in plan:
-            size = max(1, min(sim.batch_size(stratum), (n + workers * 4 - 1) // (workers * 4)))
-            for ch in _chunks(n, size):
-                jobs.append((stratum, ch))
-        if workers == 1:
-            for stratum, ch in jobs:
-                results.append(run_batch(sim_name, prop, tier, seed, stratum, ch))
-        else:
-            with core.pool(workers) as ex:
-                futs = [ex.submit(run_batch, sim_name, prop, tier, seed, stratum, ch)
-                        for stratum, ch in jobs]
-                for fu in futs:
-                    results.append(fu.result())
+            # the batch partition is fixed per stratum (never depends on the worker count)
+            for ch in _chunks(n, sim.batch_size(stratum)):
+                jobs.append((sim_name, prop, tier, seed, stratum, ch))
+        results = core.run_forked(jobs, workers, run_batch)
     return _finish(sim, sim_name, prop, tier, seed, plan, results, t0)
 
 
@@ -153,11 +149,9 @@ def _run_hash_groups(sim, sim_name, prop, tier, seed, plan, workers):
     groups = sim.hash_seed_groups(prop, tier, seed)
     jobs = []
     for stratum, n in plan:
-        per = (n + len(groups) - 1) // len(groups)
-        for gi, hs in enumerate(groups):
-            lo, hi = gi * per, min(n, (gi + 1) * per)
-            if lo < hi:
-                jobs.append((stratum, lo, hi, hs))
+        size = sim.batch_size(stratum)
+        for b, lo in enumerate(range(0, n, size)):
+            jobs.append((stratum, lo, min(n, lo + size), groups[b % len(groups)]))
     procs = []
     results = []
     pending = list(jobs)
@@ -256,23 +250,7 @@ def _finish(sim, sim_name, prop, tier, seed, plan, results, t0):
         seen_keys.add(f.key_str())
         if len(reported) >= 3:
             continue
-        driver_reset = reset_seams
-        driver_reset()
-        ops, ok = core.minimise(_Resetting(sim), u["cfg"], u["ops"], f)
-        if not ok:
-            raise HarnessError(f"finding {f.key_str()} of run {u['index']} did not reproduce "
-                               f"when re-executed from its op list")
-        res2 = core.execute_ops(_Resetting(sim), u["cfg"], ops, stop_on=f.key_str())
-        for _, f2 in res2.findings:
-            if f2.key_str() == f.key_str():
-                f = f2
-                break
-        path = core.write_replay(sim_name, prop, f, seed, u["cfg"].get("stratum", "?"),
-                                 u["index"], u["cfg"], ops,
-                                 hash_seed=str(u["cfg"].get("hash_seed", "0")))
-        rc = replay_subprocess(path)
-        if rc != 1:
-            raise HarnessError(f"replay file {path} did not reproduce in a fresh interpreter (rc={rc})")
+        f, path = _report_one(sim, sim_name, prop, tier, seed, u, f)
         reported.append((f, path))
     wall = time.time() - t0
     distinct_name = sim.distinct_measure
@@ -316,6 +294,67 @@ def _finish(sim, sim_name, prop, tier, seed, plan, results, t0):
     return exit_code
 
 
+def _report_one(sim, sim_name, prop, tier, seed, u, f):
+    """Minimise, write the replay file, and prove that it reproduces in a fresh
+    interpreter.  If the single history does not reproduce on its own, the
+    violation depends on process-global state left by earlier runs of the same
+    batch: fall back to a batch replay (the exact run sequence of that batch,
+    minimised by dropping earlier runs)."""
+    reset_seams()
+    ops, ok = core.minimise(_Resetting(sim), u["cfg"], u["ops"], f)
+    if ok:
+        res2 = core.execute_ops(_Resetting(sim), u["cfg"], ops, stop_on=f.key_str())
+        for _, f2 in res2.findings:
+            if f2.key_str() == f.key_str():
+                f = f2
+                break
+        path = core.write_replay(sim_name, prop, f, seed, u["cfg"].get("stratum", "?"),
+                                 u["index"], u["cfg"], ops,
+                                 hash_seed=str(u["cfg"].get("hash_seed", "0")))
+        if replay_subprocess(path) == 1:
+            return f, path
+    # batch replay
+    indices = list(range(u["batch_first"], u["index"] + 1))
+
+    def write(ind):
+        return core.write_replay(sim_name, prop, f, seed, u["stratum"], u["index"], u["cfg"], u["ops"],
+                                 hash_seed=str(u.get("hash_seed", "0")),
+                                 extra={"mode": "batch", "tier": tier, "batch_indices": ind,
+                                        "note": "the violation depends on state left in the process by the "
+                                                "earlier runs listed in batch_indices; replay re-executes "
+                                                "exactly those runs, in order, in a fresh interpreter"})
+    path = write(indices)
+    if replay_subprocess(path) != 1:
+        raise HarnessError(f"finding {f.key_str()} of run {u['index']} reproduces neither from its own op list "
+                           f"nor from its batch history {indices[0]}..{indices[-1]} in a fresh interpreter")
+    prelude = indices[:-1]
+    tests = 0
+    n = 2
+    while len(prelude) >= 1 and tests < 40:
+        chunk = max(1, len(prelude) // n)
+        reduced = False
+        i = 0
+        while i < len(prelude) and tests < 40:
+            cand = prelude[:i] + prelude[i + chunk:]
+            tests += 1
+            path = write(cand + [indices[-1]])
+            if replay_subprocess(path) == 1:
+                prelude = cand
+                n = max(n - 1, 2)
+                reduced = True
+            else:
+                i += chunk
+        if not reduced:
+            if chunk == 1:
+                break
+            n = min(len(prelude), n * 2)
+    path = write(prelude + [indices[-1]])
+    if replay_subprocess(path) != 1:
+        raise HarnessError("minimised batch replay stopped reproducing")
+    f = Finding(f.prop, f.key, f.detail + f" [depends on process history: earlier runs {prelude} of the same batch]")
+    return f, path
+
+
 class _Resetting:
     """Wrap a sim so that every re-execution starts from reset seams."""
 
@@ -346,6 +385,18 @@ def replay_inner(path) -> int:
     with open(path) as f:
         data = json.load(f)
     sim = get_sim(data["sim"])
+    if data.get("mode") == "batch":
+        out = run_batch(data["sim"], data["property"], data["tier"], data["seed"], data["stratum"],
+                        data["batch_indices"], hash_seed=str(data.get("hash_seed", "0")),
+                        focus=data["batch_indices"][-1])
+        for u in out["unknown"]:
+            f = Finding(u["finding"]["property"], u["finding"]["key"], u["finding"]["detail"])
+            if f.key_str() == data["key_str"]:
+                print(f"violation detail: {f.key_str()} :: {f.detail}")
+                print(f"VIOLATION property={data['property']} replay={path}")
+                return 1
+        print(f"replay of {path}: recorded violation {data['key_str']} not reproduced")
+        return 0
     reset_seams()
     res = core.execute_ops(_Resetting(sim), data["config"], data["ops"],
                            stop_on=data["key_str"])
